@@ -44,6 +44,11 @@ def cross(gen, name):
     return run
 
 
+def sweep_run(prop, tier):
+    from . import sweep
+    return sweep.run_sweep(prop, tier)
+
+
 def cli_run(prop, tier):
     from . import cli
     return cli.run_cli(prop, tier)
@@ -104,11 +109,13 @@ PLANS = {
     "C10": dict(
         mc=[mc("MC_Pure", "MC_Pure.cfg", workers=1)],
         families=[fam("coords", F.fam_coords)],
+        custom=[dict(run=sweep_run)],
         rule="SignedAlg = Signed exhaustively for widths <= 15; boundary-complete coordinate values in 22 fields x 3 backgrounds; "
              "all values of every speed / course / draught field"),
     "C11": dict(
         mc=[mc("MC_Layouts", "MC_Layouts.cfg")],
         families=[fam("sentinel", F.fam_sentinel)],
+        custom=[dict(run=sweep_run)],
         rule="every optional numeric field: all values if <= 10(12) bits, else sentinel neighbourhood, extremes, random"),
     "C12": dict(
         mc=[mc("MC_Enums", "MC_Enums.cfg")],
